@@ -201,8 +201,12 @@ def build(tier, seed):
     obs = []
     dyn_all = vprop.enum_ob("x", [], lambda: list(_samples()), _check_sample, "").run
 
+    REL = {"convert_dict_to_op": ["op dict", "convert_dict_to_op"]}
+
     def frame_ob(key):
         cls = key.split(":")[1].split(".")[0]
+        rel = REL.get(key.split(":")[1])
+        dyn = dyn_all if rel is None else vprop.enum_ob("x", [], lambda: rel, _check_sample, "").run
         allow = GHOST.get(cls, ())
         ignore = ("self",) if key.endswith(".__init__") else ()
 
@@ -224,7 +228,7 @@ def build(tier, seed):
                                     replay=rep, finding_key=key)
             return core.undecided("engine-F", f"cannot classify: {txt}")
         return Ob(f"C20.frame[{key.split(':')[1]}]", "proof", [key], run,
-                  f"{key.split(':')[1]} modifies nothing reachable from its arguments / receiver and no module-level state", fallback=dyn_all, timeout=300)
+                  f"{key.split(':')[1]} modifies nothing reachable from its arguments / receiver and no module-level state", fallback=dyn, timeout=300)
     for key in OPS:
         obs.append(frame_ob(key))
 
